@@ -7,9 +7,10 @@ conversion table.  Not decided: the split/merge relation itself and bounds arith
 from __future__ import annotations
 
 import ast
+import copy
 
 from ..core import Rule, AnalysisError, norm
-from .. import pyfront
+from .. import pyfront, pyutil
 from . import c01
 
 RD = "DigitalRFReader"
@@ -24,107 +25,221 @@ def _args(c):
     return [norm(ast.unparse(a)) for a in c.args], {k.arg: norm(ast.unparse(k.value)) for k in c.keywords}
 
 
+def _returns_file_list(h):
+    """h returns the value of a self._get_file_list(...) call (directly or through one local)."""
+    names = set()
+    for n in pyfront.walk_no_nested(h):
+        if isinstance(n, ast.Assign) and isinstance(n.value, ast.Call) and pyfront.call_name(n.value) == "self._get_file_list" \
+                and isinstance(n.targets[0], ast.Name):
+            names.add(n.targets[0].id)
+    for n in pyfront.walk_no_nested(h):
+        if isinstance(n, ast.Return) and n.value is not None:
+            if isinstance(n.value, ast.Call) and pyfront.call_name(n.value) == "self._get_file_list":
+                return True
+            if isinstance(n.value, ast.Name) and n.value.id in names:
+                return True
+    return False
+
+
+def _flist_call(m, fn):
+    """The call by which a query obtains its candidate files: self._get_file_list(...) or a same-class helper that calls it."""
+    out = []
+    for c in pyfront.walk_no_nested(fn):
+        if isinstance(c, ast.Call) and (pyfront.call_name(c) or "").startswith("self."):
+            name = pyfront.call_name(c)[5:]
+            if name == "_get_file_list":
+                out.append(c)
+            else:
+                h = m.functions.get(RD + "." + name)
+                if h is not None and _returns_file_list(h):
+                    out.append(c)
+    return out
+
+
+def _len_only_if(m, fn):
+    """(if node, data branch stmts, length branch stmts) for the `if [not] len_only` statement of fn."""
+    ifs = [n for n in ast.walk(fn) if isinstance(n, ast.If) and norm(ast.unparse(n.test)) in ("not len_only", "len_only")]
+    out = []
+    for n in ifs:
+        neg = norm(ast.unparse(n.test)) == "not len_only"
+        out.append((n, n.body if neg else n.orelse, n.orelse if neg else n.body))
+    return out
+
+
 def r1_one_pipeline(repo=None):
     r = Rule("C08.R1", "block lengths and block data come from one pipeline (sibling comparison)")
     m = pyfront.mod("digital_rf_hdf5", repo)
     a = m.fn(RD + ".read")
     b = m.fn(RD + ".get_continuous_blocks")
-    for name in ("self._get_file_list", "top_level_obj._read", "self._combine_blocks"):
-        ca, cb = _call(a, name), _call(b, name)
-        if len(ca) != 1 or len(cb) != 1:
-            r.violation(m.rel, RD + ".get_continuous_blocks", "%s called %d / %d times" % (name, len(ca), len(cb)),
-                        "read() and get_continuous_blocks() do not both go through %s exactly once" % name, line=b.lineno)
-            continue
-        (pa, ka), (pb, kb) = _args(ca[0]), _args(cb[0])
-        site = "%s:%s/%s %s" % (m.rel, ca[0].lineno, cb[0].lineno, name)
-        if name == "self._get_file_list":
-            # same expressions modulo the local names of the property dict
-            na = [x.replace("file_properties", "P") for x in pa]
-            nb = [x.replace("file_properties", "P") for x in pb]
-            if na == nb and ka == kb:
-                r.ok(site, "identical arguments in both queries")
-            else:
-                r.violation(m.rel, RD + ".get_continuous_blocks", "_get_file_list(%s) vs read: (%s)" % (", ".join(pb), ", ".join(pa)),
-                            "the two queries look at different candidate files, so reported lengths can differ from returned data",
-                            line=cb[0].lineno)
-        elif name == "top_level_obj._read":
-            ka2 = dict(ka)
-            kb2 = dict(kb)
-            la, lb = ka2.pop("len_only", None), kb2.pop("len_only", None)
-            ka2.pop("sub_channel", None)
-            if pa[:4] == pb[:4] and la == "False" and lb == "True" and not kb2 and not ka2:
-                r.ok(site, "same (start, end, files, dict) arguments; only len_only (False/True) and sub_channel differ")
-            else:
-                r.violation(m.rel, RD + ".get_continuous_blocks", "_read(%s, %s) vs read: (%s, %s)" % (pb, kb, pa, ka),
-                            "length query and data query scan different ranges", line=cb[0].lineno)
-        else:
-            if pa == pb and ka == {} and kb == {"len_only": "True"}:
-                r.ok(site, "same dictionary; len_only only in the length query")
-            else:
-                r.violation(m.rel, RD + ".get_continuous_blocks", "_combine_blocks(%s, %s)" % (pb, kb), "blocks are merged "
-                            "differently for lengths and data", line=cb[0].lineno)
-    # inside _read: both branches use the same two bounds
+    fa, fb = _flist_call(m, a), _flist_call(m, b)
+    if len(fa) != 1 or len(fb) != 1:
+        raise AnalysisError("read / get_continuous_blocks: call obtaining the candidate file list not found exactly once (%d / %d)" % (len(fa), len(fb)))
+    (pa, ka), (pb, kb) = _args(fa[0]), _args(fb[0])
+    site = "%s:%s/%s %s" % (m.rel, fa[0].lineno, fb[0].lineno, pyfront.call_name(fa[0]))
+    if pyfront.call_name(fa[0]) == pyfront.call_name(fb[0]) and pa == pb and ka == kb:
+        r.ok(site, "identical arguments in both queries")
+    else:
+        r.violation(m.rel, RD + ".get_continuous_blocks", "%s(%s) vs read: %s(%s)" % (pyfront.call_name(fb[0]), ", ".join(pb),
+                    pyfront.call_name(fa[0]), ", ".join(pa)), "the two queries look at different candidate files, so reported lengths can "
+                    "differ from returned data", line=fb[0].lineno)
+
+    def method_calls(fn, meth):
+        return [c for c in pyfront.walk_no_nested(fn) if isinstance(c, ast.Call) and isinstance(c.func, ast.Attribute) and c.func.attr == meth]
+    ra, rb = method_calls(a, "_read"), method_calls(b, "_read")
+    if len(ra) != 1 or len(rb) != 1:
+        raise AnalysisError("read / get_continuous_blocks: per-directory _read call not found exactly once")
+    (pa, ka), (pb, kb) = _args(ra[0]), _args(rb[0])
+    ka2, kb2 = dict(ka), dict(kb)
+    la, lb = ka2.pop("len_only", None), kb2.pop("len_only", None)
+    ka2.pop("sub_channel", None)
+    site = "%s:%s/%s _read" % (m.rel, ra[0].lineno, rb[0].lineno)
+    if pa[:4] == pb[:4] and la == "False" and lb == "True" and not kb2 and not ka2:
+        r.ok(site, "same (start, end, files, dict) arguments; only len_only (False/True) and sub_channel differ")
+    else:
+        r.violation(m.rel, RD + ".get_continuous_blocks", "_read(%s, %s) vs read: (%s, %s)" % (pb, kb, pa, ka),
+                    "length query and data query scan different ranges", line=rb[0].lineno)
+    ca, cb = method_calls(a, "_combine_blocks"), method_calls(b, "_combine_blocks")
+    if len(ca) != 1 or len(cb) != 1:
+        raise AnalysisError("read / get_continuous_blocks: _combine_blocks call not found exactly once")
+    (pa, ka), (pb, kb) = _args(ca[0]), _args(cb[0])
+    if pa == pb and ka == {} and kb == {"len_only": "True"}:
+        r.ok("%s:%s/%s _combine_blocks" % (m.rel, ca[0].lineno, cb[0].lineno), "same dictionary; len_only only in the length query")
+    else:
+        r.violation(m.rel, RD + ".get_continuous_blocks", "_combine_blocks(%s, %s)" % (pb, kb), "blocks are merged "
+                    "differently for lengths and data", line=cb[0].lineno)
+    # inside _read: both branches use the same two bounds and the same key
     rd = m.fn(TL + "._read")
-    ifs = [n for n in ast.walk(rd) if isinstance(n, ast.If) and norm(ast.unparse(n.test)) == "not len_only"]
+    ifs = _len_only_if(m, rd)
     if len(ifs) != 1:
-        raise AnalysisError("%s._read: `if not len_only` not found" % TL)
-    data_src = norm(ast.unparse(ast.Module(body=ifs[0].body, type_ignores=[])))
-    len_src = norm(ast.unparse(ast.Module(body=ifs[0].orelse, type_ignores=[])))
-    ok_len = "cont_data_dict[read_start_sample] = read_stop_index - read_start_index" in len_src
-    ok_data = data_src.count("read_start_index:read_stop_index") == 2 and "cont_data_dict[read_start_sample] = data" in data_src
-    if ok_len and ok_data:
-        r.ok("%s:%s %s._read" % (m.rel, ifs[0].lineno, TL), "length = read_stop_index - read_start_index; data = rf_data[read_start_index:"
-             "read_stop_index]: the same two bounds, stored under the same key")
+        raise AnalysisError("%s._read: `if [not] len_only` not found exactly once" % TL)
+    node, data_b, len_b = ifs[0]
+    lens = [n for s_ in len_b for n in ast.walk(s_) if isinstance(n, ast.Assign) and isinstance(n.targets[0], ast.Subscript)]
+    datas = [n for s_ in data_b for n in ast.walk(s_) if isinstance(n, ast.Assign) and isinstance(n.targets[0], ast.Subscript)]
+    slices = [n for s_ in data_b for n in ast.walk(s_) if isinstance(n, ast.Slice)]
+    if len(lens) != 1 or not datas or not slices:
+        raise AnalysisError("%s._read: stores into the result dictionary / row slices not recognised" % TL)
+    lv = lens[0].value
+    bounds = {(norm(ast.unparse(sl.lower)) if sl.lower else None, norm(ast.unparse(sl.upper)) if sl.upper else None) for sl in slices}
+    key_same = {norm(ast.unparse(lens[0].targets[0]))} == {norm(ast.unparse(d.targets[0])) for d in datas}
+    if len(bounds) == 1 and isinstance(lv, ast.BinOp) and isinstance(lv.op, ast.Sub) and key_same \
+            and (norm(ast.unparse(lv.right)), norm(ast.unparse(lv.left))) == list(bounds)[0]:
+        lo, hi = list(bounds)[0]
+        r.ok("%s:%s %s._read" % (m.rel, node.lineno, TL), "length = %s - %s; data = rf_data[%s:%s]: the same two bounds, stored under the same "
+             "key" % (hi, lo, lo, hi))
     else:
-        r.violation(m.rel, TL + "._read", (len_src if not ok_len else data_src)[:120], "the length branch and the data branch of "
-                    "_read do not use the same slice bounds / key", line=ifs[0].lineno)
-    cb_ = m.fn(RD + "._combine_blocks")
-    src = norm(ast.unparse(cb_))
-    if "if len_only: present_arr += arr else: present_arr = np.concatenate((present_arr, arr))" in src and \
-            "if len_only: next_cont_sample = key + arr else: next_cont_sample = key + len(arr)" in src:
-        r.ok("%s:%s %s._combine_blocks" % (m.rel, cb_.lineno, RD), "lengths are added where arrays are concatenated; continuity uses "
-             "key + arr / key + len(arr)")
+        r.violation(m.rel, TL + "._read", "length `%s` vs slices %s (same key: %s)" % (norm(ast.unparse(lv)), sorted(bounds, key=str), key_same),
+                    "the length branch and the data branch of _read do not use the same slice bounds / key", line=node.lineno)
+    cbf = m.fn(RD + "._combine_blocks")
+    if not any(isinstance(n, ast.Name) and n.id == "len_only" for n in ast.walk(cbf)):
+        raise AnalysisError("%s._combine_blocks does not use len_only" % RD)
+
+    params = {a.arg for a in cbf.args.args}
+
+    class Hom(ast.NodeTransformer):
+        """image of the data version under `array -> its length`"""
+        def visit_Call(self, node):
+            self.generic_visit(node)
+            cn = pyfront.call_name(node)
+            if cn in ("np.concatenate", "numpy.concatenate") and len(node.args) == 1 and isinstance(node.args[0], (ast.Tuple, ast.List)) \
+                    and len(node.args[0].elts) == 2:
+                return ast.BinOp(node.args[0].elts[0], ast.Add(), node.args[0].elts[1])
+            if cn == "len" and len(node.args) == 1 and isinstance(node.args[0], ast.Name) and node.args[0].id not in params:
+                return node.args[0]
+            return node
+
+    class Aug(ast.NodeTransformer):
+        def visit_AugAssign(self, node):
+            if isinstance(node.op, ast.Add):
+                return ast.Assign([node.target], ast.BinOp(copy.deepcopy(node.target), ast.Add(), node.value))
+            return node
+
+    def image(flag):
+        f2 = pyutil.specialise(cbf, "len_only", flag)
+        f2 = Aug().visit(f2)
+        if not flag:
+            f2 = Hom().visit(f2)
+        ast.fix_missing_locations(f2)
+        for x in ast.walk(f2):
+            if isinstance(x, ast.Name) and isinstance(x.ctx, ast.Store):
+                x.ctx = ast.Load()
+        body = [x for x in f2.body if not (isinstance(x, ast.Expr) and isinstance(x.value, ast.Constant))]
+        return [norm(ast.unparse(x)) for x in body]
+
+    li, di = image(True), image(False)
+    lens_first = [x for x in li if "len(cont_data_dict)" in x or "not cont_data_dict" in x]
+    if li == di:
+        r.ok("%s:%s %s._combine_blocks" % (m.rel, cbf.lineno, RD), "the len_only version is the image of the data version under array -> "
+             "len(array): concatenation becomes addition, len(x) becomes x, everything else is shared")
     else:
-        r.violation(m.rel, RD + "._combine_blocks", "merge logic", "length merging and data merging diverge", line=cb_.lineno)
+        diff = [(x, y) for x, y in zip(li, di) if x != y][:1] or [("<%d statements>" % len(li), "<%d statements>" % len(di))]
+        r.violation(m.rel, RD + "._combine_blocks", "len_only: `%s` vs data: `%s`" % (diff[0][0][:120], diff[0][1][:120]),
+                    "length merging and data merging diverge", line=cbf.lineno)
     r.guard(5)
     return r
+
+
+def _vector_roles(m, f):
+    """(dict variable assigned from self.read(...), vector variable taken out of it with popitem())"""
+    dv = zv = None
+    for n in pyfront.walk_no_nested(f):
+        if isinstance(n, ast.Assign) and isinstance(n.value, ast.Call):
+            cn = pyfront.call_name(n.value)
+            if cn == "self.read" and isinstance(n.targets[0], ast.Name):
+                dv = n.targets[0].id
+            if cn and cn.endswith(".popitem") and isinstance(n.targets[0], ast.Tuple) and len(n.targets[0].elts) == 2 \
+                    and isinstance(n.targets[0].elts[1], ast.Name):
+                zv = n.targets[0].elts[1].id
+    return dv, zv
 
 
 def r2_vector_guards(repo=None):
     r = Rule("C08.R2", "vector reads fail instead of returning partial or shifted data (must-pass)")
     m = pyfront.mod("digital_rf_hdf5", repo)
     q = RD + ".read_vector_raw"
+    f = m.fn(q)
     g = m.cfg(q)
-    guards = {"len(data_dict) > 1": None, "len(data_dict) == 0": None, "len(z) != vector_length": None}
+    dv, zv = _vector_roles(m, f)
+    if not dv or not zv:
+        raise AnalysisError("read_vector_raw: result dictionary of self.read(...) / popitem() not recognised")
+    want = {"gaps": ("len(%s) > 1" % dv,), "nodata": ("len(%s) == 0" % dv, "len(%s) < 1" % dv),
+            "short": ("len(%s) != vector_length" % zv, "vector_length != len(%s)" % zv)}
+    found = {}
     for n in g.nodes:
-        if n.kind == "cond" and n.label in guards:
-            guards[n.label] = n
+        if n.kind == "cond" and n.ast is not None and not isinstance(n.ast, (ast.For,)):
+            t = pyutil.expand_aliases(f, n.ast)
+            for k, forms in want.items():
+                if t in forms:
+                    found[k] = n
+            if k not in found and isinstance(n.ast, ast.Name) and n.ast.id == dv:
+                pass
     rets = [n for n in g.nodes if n.kind == "return"]
     if not rets:
         raise AnalysisError("read_vector_raw has no return")
-    for lab, n in guards.items():
+    msg = {"gaps": "a vector read over a range with gaps", "nodata": "a vector read over a range without data",
+           "short": "a vector read with missing samples at an edge"}
+    for k in want:
+        n = found.get(k)
         if n is None:
-            r.violation(m.rel, q, "guard `%s` missing" % lab, "a vector read over a range with gaps / without data / with missing "
-                        "samples would return partial or shifted data instead of failing", line=m.fn(q).lineno)
+            r.violation(m.rel, q, "guard `%s` missing" % want[k][0], "%s would return partial or shifted data instead of failing" % msg[k],
+                        line=f.lineno)
             continue
         ts = [b for b, l in g.succ[n.id] if l == "T"]
         treach = g.reach(ts, skip_labels=("exc",))
         raises = [x for x in g.nodes if x.id in treach and x.kind == "raise"]
-        rerr = raises and all("IOError" in x.label for x in raises) and not any(x.id in treach for x in rets)
+        rerr = raises and all("IOError" in x.label or "OSError" in x.label for x in raises) and not any(x.id in treach for x in rets)
         dom = all(x.id not in g.reach([g.entry.id], avoid=[n.id], skip_labels=("exc",)) for x in rets)
         if rerr and dom:
-            r.ok("%s:%s %s `%s`" % (m.rel, n.line, q, lab), "raises IOError; on every path to the return")
+            r.ok("%s:%s %s `%s`" % (m.rel, n.line, q, n.label), "raises IOError; on every path to the return")
         else:
-            r.violation(m.rel, q, "guard `%s`" % lab, "the guard does not raise IOError or can be bypassed on a path to the return",
+            r.violation(m.rel, q, "guard `%s`" % n.label, "the guard does not raise IOError or can be bypassed on a path to the return",
                         line=n.line)
-    # wrappers reach data only through read_vector_raw / read_vector
     for w, via in (("read_vector", "self.read_vector_raw"), ("read_vector_1d", "self.read_vector"), ("read_vector_c81d", "self.read_vector")):
-        f = m.fn(RD + "." + w)
-        direct = _call(f, "self.read") + _call(f, "self._read")
-        if _call(f, via) and not direct:
-            r.ok("%s:%s %s.%s" % (m.rel, f.lineno, RD, w), "obtains data only through %s" % via)
+        fw = m.fn(RD + "." + w)
+        direct = _call(fw, "self.read") + _call(fw, "self._read")
+        if _call(fw, via) and not direct:
+            r.ok("%s:%s %s.%s" % (m.rel, fw.lineno, RD, w), "obtains data only through %s" % via)
         else:
-            r.violation(m.rel, RD + "." + w, "bypasses %s" % via, "a vector read path avoids the guards of read_vector_raw", line=f.lineno)
+            r.violation(m.rel, RD + "." + w, "bypasses %s" % via, "a vector read path avoids the guards of read_vector_raw", line=fw.lineno)
     r.guard(6)
     return r
 
@@ -138,16 +253,23 @@ def r3_guard_on_sample_axis(repo=None):
     q = RD + ".read_vector_raw"
     f = m.fn(q)
     g = m.cfg(q)
-    take = [n for n in g.nodes if isinstance(n.ast, ast.Assign) and "data_dict.popitem()" in n.label]
-    guard = [n for n in g.nodes if n.kind == "cond" and n.label == "len(z) != vector_length"]
-    if not take or not guard:
-        raise AnalysisError("read_vector_raw: popitem() / length guard not found")
+    dv, zv = _vector_roles(m, f)
+    if not dv or not zv:
+        raise AnalysisError("read_vector_raw: result dictionary of self.read(...) / popitem() not recognised")
+    take = [n for n in g.nodes if isinstance(n.ast, ast.Assign) and ".popitem()" in n.label]
+    guard = [n for n in g.nodes if n.kind == "cond" and n.ast is not None and not isinstance(n.ast, ast.For)
+             and pyutil.expand_aliases(f, n.ast) in ("len(%s) != vector_length" % zv, "vector_length != len(%s)" % zv)]
+    if not take:
+        raise AnalysisError("read_vector_raw: popitem() not found")
+    if not guard:
+        r.violation(m.rel, q, "no length guard on `%s`" % zv, "the number of samples returned is never compared with vector_length", line=f.lineno)
+        return r
     between = g.reach([take[0].id], avoid=[guard[0].id], skip_labels=("exc",)) - {take[0].id}
     bad = None
     for n in g.nodes:
         if n.id in between and n.ast is not None:
             for c in pyfront.node_calls(n):
-                if isinstance(c.func, ast.Attribute) and pyfront.dotted(c.func.value) == "z":
+                if isinstance(c.func, ast.Attribute) and pyfront.dotted(c.func.value) == zv:
                     if c.func.attr in AXIS_DROPPERS and not (c.func.attr == "squeeze" and (c.args or pyfront.kwarg(c, "axis") is not None)):
                         bad = (n, c)
                     if c.func.attr == "reshape" and "-1" in ast.unparse(c) and "," not in ast.unparse(c):
@@ -157,14 +279,13 @@ def r3_guard_on_sample_axis(repo=None):
                     "vector_length: for vector_length == 1 (or == number of subchannels) the sample axis itself is dropped, so a "
                     "fully covered read fails or is mis-sized", line=bad[0].line)
     else:
-        r.ok("%s:%s %s" % (m.rel, guard[0].line, q), "len(z) is taken on axis 0 of the array returned by read(); any squeeze happens "
-             "after the guard")
-    # after the guard only the subchannel axis may be dropped
+        r.ok("%s:%s %s" % (m.rel, guard[0].line, q), "len(%s) is taken on axis 0 of the array returned by read(); any squeeze happens "
+             "after the guard" % zv)
     after = g.reach([b for b, l in g.succ[guard[0].id] if l == "F"], skip_labels=("exc",))
     for n in g.nodes:
         if n.id in after and n.ast is not None:
             for c in pyfront.node_calls(n):
-                if isinstance(c.func, ast.Attribute) and c.func.attr == "squeeze" and pyfront.dotted(c.func.value) == "z":
+                if isinstance(c.func, ast.Attribute) and c.func.attr == "squeeze" and pyfront.dotted(c.func.value) == zv:
                     ax = pyfront.kwarg(c, "axis", 0)
                     if pyfront.const(ax) == 1:
                         r.ok("%s:%s %s `%s`" % (m.rel, n.line, q, norm(ast.unparse(c))), "drops only the subchannel axis")
@@ -180,14 +301,18 @@ def r5_subchannel_column(repo=None):
     m = pyfront.mod("digital_rf_hdf5", repo)
     rd = m.fn(TL + "._read")
     subs = [n for n in ast.walk(rd) if isinstance(n, ast.Subscript) and pyfront.dotted(n.value) == "self.rf_data"]
-    forms = sorted(norm(ast.unparse(s.slice)) for s in subs)
-    if forms == ["(slice(read_start_index, read_stop_index, None), sub_channel)", "slice(read_start_index, read_stop_index, None)"] or \
-            forms == sorted(["read_start_index:read_stop_index", "(read_start_index:read_stop_index, sub_channel)"]) or \
-            forms == sorted(["read_start_index:read_stop_index", "read_start_index:read_stop_index, sub_channel"]):
-        r.ok("%s:%s %s._read" % (m.rel, rd.lineno, TL), "rf_data[a:b] and rf_data[a:b, sub_channel] with the same a, b")
+    full = [s_ for s_ in subs if isinstance(s_.slice, ast.Slice)]
+    col = [s_ for s_ in subs if isinstance(s_.slice, ast.Tuple) and len(s_.slice.elts) == 2 and isinstance(s_.slice.elts[0], ast.Slice)]
+    if len(full) != 1 or len(col) != 1:
+        raise AnalysisError("%s._read: rf_data[a:b] / rf_data[a:b, sub_channel] not recognised (%d subscripts)" % (TL, len(subs)))
+    fa = (norm(ast.unparse(full[0].slice.lower or ast.Constant(None))), norm(ast.unparse(full[0].slice.upper or ast.Constant(None))))
+    cs = col[0].slice.elts[0]
+    ca = (norm(ast.unparse(cs.lower or ast.Constant(None))), norm(ast.unparse(cs.upper or ast.Constant(None))))
+    if fa == ca and norm(ast.unparse(col[0].slice.elts[1])) == "sub_channel":
+        r.ok("%s:%s %s._read" % (m.rel, rd.lineno, TL), "rf_data[%s:%s] and rf_data[%s:%s, sub_channel] with the same bounds" % (fa + ca))
     else:
-        r.violation(m.rel, TL + "._read", "rf_data subscripts: %s" % forms, "the subchannel branch does not take the column of the "
-                    "same row slice as the full read", line=rd.lineno)
+        r.violation(m.rel, TL + "._read", "rf_data[%s:%s] vs rf_data[%s:%s, %s]" % (fa + ca + (norm(ast.unparse(col[0].slice.elts[1])),)),
+                    "the subchannel branch does not take the column of the same row slice as the full read", line=col[0].lineno)
     r.guard(1)
     return r
 
